@@ -10,8 +10,10 @@ import (
 	"crypto/sha256"
 	"fmt"
 	"io"
+	"os"
 	"os/exec"
 	"path"
+	"path/filepath"
 	"reflect"
 	"sort"
 	"strconv"
@@ -24,6 +26,7 @@ import (
 	"golang.org/x/crypto/openpgp"
 	"golang.org/x/crypto/openpgp/packet"
 
+	"pault.ag/go/debian/control"
 	"pault.ag/go/debian/deb"
 
 	"verif/harness/core"
@@ -414,6 +417,87 @@ func emitDeb(g *core.G, data []byte) {
 	}, "debplan", h)
 }
 
+// debByTool builds a package with the real dpkg-deb from a scratch tree
+func debByTool(r *core.Rand, comp string) ([]byte, map[string]string, string) {
+	dir, err := os.MkdirTemp("", "verif-deb-")
+	if err != nil {
+		return nil, nil, ""
+	}
+	defer os.RemoveAll(dir)
+	root := filepath.Join(dir, "pkg")
+	os.MkdirAll(filepath.Join(root, "DEBIAN"), 0o755)
+	os.MkdirAll(filepath.Join(root, "usr/share/doc/foo"), 0o755)
+	ver := "1." + strconv.Itoa(r.Intn(50)) + "-" + strconv.Itoa(r.Intn(9)+1)
+	arch := r.Pick([]string{"amd64", "all", "i386"})
+	ctl := "Package: foo" + strconv.Itoa(r.Intn(9)) + "\nVersion: " + ver + "\nArchitecture: " + arch + "\nMaintainer: A B <a@b>\nDepends: libc6 (>= 2.1), bar | baz\nDescription: short\n long text\n"
+	os.WriteFile(filepath.Join(root, "DEBIAN/control"), []byte(ctl), 0o644)
+	body := r.Str("abc\n", r.Intn(300))
+	os.WriteFile(filepath.Join(root, "usr/share/doc/foo/copyright"), []byte(body), 0o644)
+	out := filepath.Join(dir, "out.deb")
+	cmd := exec.Command("dpkg-deb", "--root-owner-group", "-Z"+comp, "-b", root, out)
+	if cmd.Run() != nil {
+		return nil, nil, ""
+	}
+	b, _ := os.ReadFile(out)
+	d, err := control.ParseControlFile(filepath.Join(root, "DEBIAN/control"))
+	_ = d
+	expect := map[string]string{"Package": core.Hex(strings.SplitN(ctl[9:], "\n", 2)[0]), "Maintainer": core.Hex("A B <a@b>"), "Description": core.Hex("short\nlong text\n"),
+		"Architecture": archTriple(arch)}
+	return b, expect, body
+}
+
+func streamDebTool(g *core.G) {
+	r := g.R
+	for i := g.N(12, 600); i > 0; i-- {
+		comp := r.Pick([]string{"gzip", "xz", "zstd", "none"})
+		b, expect, _ := debByTool(r, comp)
+		if b == nil {
+			continue
+		}
+		emitDeb(g, b)
+		ext := map[string]string{"gzip": "tar.gz", "xz": "tar.xz", "zstd": "tar.zst", "none": "tar"}[comp]
+		args := []string{core.Hex(string(b)), "accept-tool", core.Hex(ext)}
+		g.Emit("law-debtool", append(args, expectedRecordDump(codecTypes["DebControl"], expect)...)...)
+	}
+}
+
+func init() {
+	// law: a package built by the real dpkg-deb loads, with the packaged control fields and the
+	// data extension of the chosen compressor
+	debImpl["law-debtool"] = func(a []string) string {
+		d, err := deb.Load(bytes.NewReader([]byte(core.MustUnHex(a[0]))), "x.deb")
+		if err != nil {
+			return "FAIL a dpkg-deb built package is rejected: " + err.Error()
+		}
+		defer d.Close()
+		if core.Hex(d.DataExt) != a[2] {
+			return fmt.Sprintf("FAIL data extension %q", d.DataExt)
+		}
+		v := reflect.ValueOf(&d.Control).Elem()
+		for _, e := range a[3:] {
+			i := strings.IndexByte(e, '=')
+			f, _ := v.Type().FieldByName(e[:i])
+			if got := dumpGoValue(v.FieldByIndex(f.Index)); got != e[i+1:] {
+				return fmt.Sprintf("FAIL control field %s: got %s want %s", e[:i], got, e[i+1:])
+			}
+		}
+		n := 0
+		for {
+			h, err := d.Data.Next()
+			if err != nil {
+				break
+			}
+			if strings.HasSuffix(h.Name, "copyright") {
+				n++
+			}
+		}
+		if n != 1 {
+			return "FAIL the packaged file is not in the data stream"
+		}
+		return "ok"
+	}
+}
+
 func streamDeb(g *core.G) {
 	r := g.R
 	n := g.N(300, 12000)
@@ -731,13 +815,13 @@ func init() {
 		"fingerprint:deb.loadDeb2Data", "fingerprint:deb.ArEntry.IsTarfile", "fingerprint:deb.ArEntry.Tarfile", "fingerprint:deb.DecompressorFor")
 	core.Register(&core.Property{
 		ID: "C13", PropsModule: "GoDebian.Props.C13", Facts: arFacts,
-		Streams: []core.Stream{{Name: "ar", Gen: streamAr,
+		Streams: []core.Stream{{Name: "artool", Gen: streamArTool, Domain: "archives written by the system's /usr/bin/ar (GNU format, deterministic mode) from 1-4 random files: model vs implementation, and law-arfiles (members = the files, then end of archive)"}, {Name: "ar", Gen: streamAr,
 			Domain: "member-list models (0-5 members; names of 1-16 bytes incl. blanks and non-ASCII, GNU trailing slash; sizes 0, 1, odd, even; blank numeric columns; binary data incl. the magic strings) built into archives by the Lean specification Spec.Ar.build; iteration by the real reader: per member the recorded metadata and a fingerprint of the bytes read *after* the iterator has finished and again after a rewind; terminal outcome and step count; cross-check of the harness's own writer"}},
 		Impl: debImpl, Readable: debReadable, TrustedBase: tb,
 	})
 	core.Register(&core.Property{
 		ID: "C14", PropsModule: "GoDebian.Props.C14", Facts: debFacts,
-		Streams: []core.Stream{{Name: "deb", Gen: streamDeb,
+		Streams: []core.Stream{{Name: "debtool", Gen: streamDebTool, Domain: "packages built by the real dpkg-deb (-Zgzip / xz / zstd / none) from a scratch tree: model vs deb.Load and law-debtool (packaged control fields, data extension, packaged file present in the data stream)"}, {Name: "deb", Gen: streamDeb,
 			Domain: "package models (control fields from the Debian field table, control-tar file order and name spelling of ./control, 0-3 data files, extra and underscore members) x all 6x6 compression combinations (none, gzip, xz, bzip2, lzma, zstd; encoders: Go gzip, klauspost zstd, xz/bzip2 CLI) built with the harness's ar/tar writers; wrong format versions, missing members, control file missing from the tar; model (with the real decompressor+tar answers on the byte ranges the model selects) vs deb.Load x5; law-deb: control fields, extensions, member index and data-tar listing equal the package model"}},
 		Impl: debImpl, Readable: debReadable, TrustedBase: append(append([]string{}, tb...), "gzip/bzip2/xz/lzma/zstd decoders and archive/tar (parameters: evaluated for real on the ranges the model selects; their agreement with the encoders is exercised, not proved)"),
 	})
